@@ -122,7 +122,7 @@ MatchEntries(cfg, T, m, b, pre) ==
   IF m = <<>> THEN b = <<>>
   ELSE /\ Take(b, Len(pre)) = pre
        /\ LET r == ReadLen(Drop(b, Len(pre))) IN
-          /\ r.ok /\ Len(pre) + r.n + r.v <= Len(b)
+          /\ r.ok /\ r.v <= Len(b) - Len(pre) - r.n
           /\ LET chunk == Slice(b, Len(pre) + r.n, r.v)
                  rest == Drop(b, Len(pre) + r.n + r.v) IN
              \E j \in 1..Len(m) : MatchEntry(cfg, T, m[j], chunk) /\ MatchEntries(cfg, T, Remove(m, j), rest, pre)
@@ -146,7 +146,7 @@ MatchFramed(cfg, T0, v, idx, b) == LET T == Resolve(T0) IN
        /\ Take(b, Len(t)) = t
        /\ IF w = WTLength
           THEN LET r == ReadLen(Drop(b, Len(t))) IN
-               r.ok /\ Len(t) + r.n + r.v = Len(b) /\ MatchBody(cfg, T, v, Drop(b, Len(t) + r.n))
+               r.ok /\ r.v = Len(b) - Len(t) - r.n /\ MatchBody(cfg, T, v, Drop(b, Len(t) + r.n))
           ELSE MatchBody(cfg, T, v, Drop(b, Len(t)))
 MatchFields(cfg, fs, vs, i, b) ==
   IF i > Len(fs) THEN b = <<>>
@@ -170,7 +170,7 @@ MatchJItems(es, i, b) ==
 MatchJEntries(m, b) ==
   IF m = <<>> THEN b = <<>>
   ELSE LET r == ReadLen(b) IN
-       /\ r.ok /\ r.n + r.v <= Len(b)
+       /\ r.ok /\ r.v <= Len(b) - r.n
        /\ LET chunk == Slice(b, r.n, r.v)  rest == Drop(b, r.n + r.v) IN
           \E j \in 1..Len(m) :
              LET kb == Tag(WTLength, 1) \o UV(Len(m[j][1])) \o m[j][1] IN
